@@ -34,7 +34,8 @@ NAMES = ['a', 'b', 'c', 'd']
 DOC_OPTS = [('graceful_timeout', ['0.2', '0.5', '1']), ('warmup_delay', ['0', '1']), ('priority', ['0', '1', '5']),
             ('max_retry', ['3', '5']), ('stop_signal', ['TERM', 'INT', '10']),
             ('send_hup', ['true', 'false']), ('stop_children', ['true', 'false']), ('working_dir', ['/tmp', '/']),
-            ('copy_env', ['true', 'false']), ('max_age', ['0']), ('myopt', ['1', '2', 'x']), ('other_opt', ['y', 'z'])]
+            ('copy_env', ['true', 'false']), ('max_age', ['0']), ('myopt', ['1', '2', 'x']), ('other_opt', ['y', 'z']),
+            ('stdout_stream.class', ['StdoutStream', 'FancyStdoutStream']), ('stderr_stream.class', ['StdoutStream'])]
 
 
 def plan(tier, seed):
